@@ -33,22 +33,28 @@ func init() {
 	})
 }
 
-type c20Passage struct{ L, X time.Time }
+type c20Passage struct {
+	L, X time.Time
+	P    time.Time // write passages: instant the message reached the probe behind the handler (zero = not yet)
+	id   int
+}
 
 type c20Chan struct {
-	id       string
-	read     bool
-	idle     time.Duration
-	mu       sync.Mutex
-	A        time.Time
-	passages []c20Passage
-	checks   map[int64]time.Time // last check instant per goroutine
-	allCheck []time.Time
-	events   []c20Event
-	I        time.Time
-	excs     []error
-	panicEv  bool
-	pendingL []time.Time // feed instants not yet matched to a passage (reads)
+	id            string
+	read          bool
+	idle          time.Duration
+	mu            sync.Mutex
+	A             time.Time
+	passages      []c20Passage
+	checks        map[int64]time.Time // last check instant per goroutine
+	allCheck      []time.Time
+	events        []c20Event
+	I             time.Time
+	excs          []error
+	panicEv       bool
+	closeInActive bool
+	slowWrite     int32       // >0: the next transport write stalls for that many milliseconds
+	pendingL      []time.Time // feed instants not yet matched to a passage (reads)
 }
 
 type c20Event struct {
@@ -84,10 +90,31 @@ func (b *c20Before) HandleRead(ctx netty.InboundContext, message netty.Message) 
 	}
 }
 
+// HandleWrite: for write-idle channels this probe sits behind the handler in the outbound direction:
+// the message has been forwarded past the handler when it arrives here.
+func (b *c20Before) HandleWrite(ctx netty.OutboundContext, message netty.Message) {
+	if !b.ch.read {
+		now := time.Now()
+		b.ch.mu.Lock()
+		for i := len(b.ch.passages) - 1; i >= 0; i-- {
+			if b.ch.passages[i].P.IsZero() && b.ch.passages[i].X.IsZero() {
+				b.ch.passages[i].P = now
+				break
+			}
+		}
+		b.ch.mu.Unlock()
+	}
+	ctx.HandleWrite(message)
+}
+
 // after: behind the idle handler (inbound direction); for write-idle it is "before" in the outbound direction.
 type c20After struct{ ch *c20Chan }
 
 func (a *c20After) HandleActive(ctx netty.ActiveContext) {
+	if a.ch.closeInActive {
+		// a handler behind the idle handler rejects the connection during activation
+		ctx.Close(errSentinel)
+	}
 	if !a.ch.read {
 		// outbound direction: this probe is passed before the write-idle handler; activation reaches the
 		// write-idle handler before this probe, so take A from the probe in front for soundness (A <= handler's start)
@@ -96,12 +123,18 @@ func (a *c20After) HandleActive(ctx netty.ActiveContext) {
 }
 
 func (a *c20After) HandleWrite(ctx netty.OutboundContext, message netty.Message) {
-	l := time.Now()
-	ctx.HandleWrite(message)
+	idx := -1
 	if !a.ch.read {
+		a.ch.mu.Lock()
+		a.ch.passages = append(a.ch.passages, c20Passage{L: time.Now()})
+		idx = len(a.ch.passages) - 1
+		a.ch.mu.Unlock()
+	}
+	ctx.HandleWrite(message)
+	if idx >= 0 {
 		x := time.Now()
 		a.ch.mu.Lock()
-		a.ch.passages = append(a.ch.passages, c20Passage{L: l, X: x})
+		a.ch.passages[idx].X = x
 		a.ch.mu.Unlock()
 	}
 }
@@ -205,6 +238,8 @@ func runC20(c *core.Ctx) {
 func c20Channel(c *core.Ctx, id string, idx int, idle time.Duration) {
 	rng := c.Rand("chan", idx)
 	st := &c20Chan{id: id, read: idx%2 == 0, idle: idle, checks: map[int64]time.Time{}, panicEv: rng.Intn(5) == 0}
+	st.closeInActive = idx%10 == 7 || idx%10 == 2
+	slowWriteTrial := !st.read && idx%3 == 0 && !st.closeInActive // sync-mode write-idle channels: one write stalls in the transport across the timer's expiry
 	var h netty.Handler
 	if st.read {
 		h = netty.ReadIdleHandler(idle)
@@ -228,6 +263,44 @@ func c20Channel(c *core.Ctx, id string, idx int, idle time.Duration) {
 	rig := mon.NewRig(mon.RigOpts{Mode: mon.Mode(idx % 3), Queue: 8, NoPark: true, NoHooks: true,
 		Handlers: []netty.Handler{before, h, after, c20Reader{}}})
 	defer rig.Dispose()
+	rig.T.OnOp = func(kind string, phase int) {
+		if kind == mon.OpWrite && phase == 0 {
+			if ms := atomic.SwapInt32(&st.slowWrite, 0); ms > 0 {
+				time.Sleep(time.Duration(ms) * time.Millisecond)
+			}
+		}
+	}
+	if st.closeInActive {
+		// the channel was closed during activation: only watch that no idle period is timed afterwards
+		time.Sleep(idle*5/2 + 100*time.Millisecond)
+		st.mu.Lock()
+		defer st.mu.Unlock()
+		c.Count("callbacks_observed", int64(len(st.allCheck)))
+		c.Count("channels_closed_during_activation", 1)
+		what := fmt.Sprintf("[%s-idle handler, channel closed by a later handler during activation, idle=%v]", map[bool]string{true: "read", false: "write"}[st.read], idle)
+		if st.I.IsZero() {
+			c.Inconclusive(id, "inactive not observed after close-in-active")
+			return
+		}
+		c.Count("channels_closed_and_watched", 1)
+		for _, e := range st.events {
+			if e.hasC && e.C.After(st.I) {
+				c.Violation("C20:idle-event-after-inactive", id, fmt.Sprintf("an idle event was delivered by a timer callback whose expiry check ran %v after the inactive event had passed the handler %s", e.C.Sub(st.I), what), nil)
+				break
+			}
+		}
+		late := 0
+		for _, t := range st.allCheck {
+			if t.After(st.I.Add(idle)) {
+				late++
+			}
+		}
+		if late >= 2 {
+			c.Violation("C20:timer-not-released-after-inactive", id, fmt.Sprintf("%d timer callbacks ran more than one idle period after inactive %s", late, what), nil)
+		}
+		c.Sig("close-in-active", st.read, len(st.allCheck) > 0)
+		return
+	}
 	pass := func() {
 		if st.read {
 			st.mu.Lock()
@@ -253,6 +326,15 @@ func c20Channel(c *core.Ctx, id string, idx int, idle time.Duration) {
 		time.Sleep(gaps[g])
 	}
 	pass()
+	if slowWriteTrial {
+		// a write issued late in the idle period stalls in the transport across the timer's expiry:
+		// the message has passed the handler, so no idle event may be delivered until a full period after it
+		time.Sleep(idle * 7 / 10)
+		atomic.StoreInt32(&st.slowWrite, int32(idle.Milliseconds()*7/10))
+		pass()
+		c.Count("stalled_writes_across_expiry", 1)
+		pattern += "S"
+	}
 	// phase 2: silence
 	silence := 3*idle + 1200*time.Millisecond
 	silenceStart := time.Now()
@@ -310,7 +392,8 @@ func c20Channel(c *core.Ctx, id string, idx int, idle time.Duration) {
 		}
 		var lastL time.Time
 		for _, p := range st.passages {
-			if p.X.Before(e.C) && p.L.After(lastL) {
+			passed := (!p.X.IsZero() && p.X.Before(e.C)) || (!p.P.IsZero() && p.P.Before(e.C))
+			if passed && p.L.After(lastL) {
 				lastL = p.L
 			}
 		}
